@@ -598,8 +598,11 @@ static Token *subst(Token *tok, MacroArg *args) {
         continue;
       }
 
+      Token *prev = cur;
       for (Token *t = arg->tok; t->kind != TK_EOF; t = t->next)
         cur = cur->next = copy_token(t);
+      prev->next->at_bol = tok->at_bol;
+      prev->next->has_space = tok->has_space;
       tok = tok->next;
       continue;
     }
